@@ -184,6 +184,8 @@ class Worker(threading.Thread):
         self.op = None
         self.calls = 0
         self.examined = None
+        self.decided = None
+        self.confirm_seen = None
         self.contention_seen = "-"
         self.in_steal = False
         self.prev_call = None
@@ -373,6 +375,7 @@ class World:
             w.busy = True
             w.op = op
             w.calls = 0
+            w.confirm_seen = None
             w.inbox.put(op)
             self._wait(w)
             return
@@ -465,20 +468,34 @@ class World:
                     self.break_decisions += 1
                     if self._owner_alive(cur):
                         self.broke_alive = True
-                w.examined = cur
+                w.decided = cur
+                w.examined = None
             elif breaking:
-                w.examined = cur
+                w.examined = cur            # force_break's own peek
             elif w.op == "a" and w.calls >= 3:
                 w.contention_seen = cur     # the peek after a failed rename (or the confirming peek)
+            elif w.op == "u":
+                w.confirm_seen = cur
         if call == "rename:H>B":
             removed = self.held_content()
-            examined = w.examined
-            if removed != "-" and removed != examined:
+            if removed != "-" and removed != w.decided:
                 self.misrenamed = True
+                # F7 proper: force_break re-checked the holder (saw the info the decision was based on) and the
+                # holder changed only after that re-check.  Anything else (e.g. the re-check is missing or wrong)
+                # is a different failure.
+                fam = FAMILY_F7 if w.examined == w.decided else None
                 self.oracle.append((
-                    "locker %d breaks the lock it examined (%s) but renames away held/ of %s "
-                    "(the later holder's lock is removed and not restored)" % (lid, examined, removed),
-                    FAMILY_F7))
+                    "locker %d decided to break the lock %s (force_break then saw %s) but renames away held/ of %s "
+                    "(the later holder's lock is removed and not restored)" % (lid, w.decided, w.examined, removed),
+                    fam))
+        if call == "rename:H>R":
+            removed = self.held_content()
+            if removed != "-" and not removed.startswith("o%d." % lid):
+                seen = w.confirm_seen
+                if seen is None or not seen.startswith("o%d." % lid):
+                    self.oracle.append((
+                        "unlock of locker %d renames away held/ of %s although it did not see its own lock there "
+                        "(confirm saw %s)" % (lid, removed, seen), None))
 
     def _oracle_after_call(self, w):
         lid = w.lid
@@ -488,6 +505,8 @@ class World:
             if prev == "get:H" and w.pending == "get:H" and not w.in_steal:
                 w.in_steal = True
                 seen = w.contention_seen
+                w.decided = seen
+                w.examined = None
                 self.break_decisions += 1
                 ok = seen.startswith("o") and "?" not in seen
                 if ok:
@@ -730,6 +749,37 @@ F7_CASES = [
 ]
 
 
+def break_race_case(rng):
+    """X holds (alive or dead); breaker A (user break_lock or a stealing attempt) is stopped after p of its
+    calls; meanwhile the lock is released / broken by somebody else and re-acquired by B; A continues; C attempts."""
+    steal = rng.random() < 0.5
+    dead = steal or rng.random() < 0.5
+    cfgs = [[1, 1, rng.random() < 0.5] for _ in range(5)]
+    cfgs[1][2] = steal
+    X, A, B, C, D = 0, 1, 2, 3, 4
+    ev = ["s0a"] + ["t0"] * 4
+    if dead:
+        ev.append("x0")
+        cfgs[4][2] = True
+    ev.append("s1a" if steal else "s1b")
+    p = rng.randrange(0, 8)
+    ev += ["t1"] * p
+    if dead:
+        ev += ["s4a"] + ["t4"] * rng.choice([11, 11, 11, rng.randrange(0, 12)])   # D steals X's lock and acquires
+        if rng.random() < 0.7:
+            ev += ["s4u"] + ["t4"] * rng.choice([4, 4, rng.randrange(0, 5)])
+    else:
+        ev += ["s0u"] + ["t0"] * rng.choice([4, 4, rng.randrange(0, 5)])
+    if rng.random() < 0.8:
+        ev += ["s2a"] + ["t2"] * rng.choice([4, 4, 6, rng.randrange(0, 7)])
+    ev += ["t1"] * rng.randrange(0, 10)
+    ev += ["s3a"] + ["t3"] * rng.choice([4, 6, 11])
+    ev += ["t1"] * rng.randrange(0, 4) + ["t2"] * rng.randrange(0, 3)
+    if rng.random() < 0.3:
+        ev += ["s2c", "t2", "s3c", "t3"]
+    return dict(cfgs=cfgs, held="-", events=ev)
+
+
 def _interleaved(events):
     """some locker performs a step while another one is mid-operation"""
     busy = set()
@@ -826,8 +876,9 @@ def run(ctx):
             total += 1
     ctx.extra["exhaustive_interleavings"] = total
     # sampled
-    rnd = []
-    for _ in range(ctx.pick(4000, 40000)):
+    rnd = [break_race_case(ctx.rng) for _ in range(ctx.pick(600, 6000))]
+    ctx.count("directed:break-race", len(rnd))
+    for _ in range(ctx.pick(2500, 40000)):
         case = random_case(ctx.rng)
         if ctx.thorough() and ctx.rng.random() < 0.1:
             case["local"] = True
@@ -836,6 +887,8 @@ def run(ctx):
         _record(ctx, case, obs, oracle, cases, lines, outs)
     ctx.diff(cases, lines, outs)
     ctx.exhaustive = True
+    # report violations outside the known F7 family first
+    ctx.violations.sort(key=lambda v: v["family"] is not None)
 
 
 def replay(ctx, case):
